@@ -36,6 +36,13 @@ var hubReal = []string{"hub.Hub (2-3 instances)", "ship.ShipConnection", "ws.Web
 var hubStub = []string{"TCP (simnet: listeners, dial, latency, reset, half-open)", "mDNS medium (ether provider behind the manager's zeroconf seam: delayed / lost announcements)", "applications (HubReaderInterface recorder)", "user operations (harness tasks)"}
 
 var props = map[string]PropMeta{
+	"C18": {
+		Level: "exploration",
+		Rule: "one run = two real hubs, one handshake scenario from {success, remote denial, SHIP-id mismatch, reset after the n-th delivered chunk (n drawn 1..25), pending, pending then approve, pending then cancel, success then disconnect / unregister} x latency 0..600 ms x seeded scheduling of the individually delayed notification goroutines and everything else; at two stable points (20 quiet simulated s): last ServicePairingDetailUpdate per (hub, SKI) == PairingDetailForSki, and no delayed notification carries a state produced before one already delivered (production order observed by a build-time probe on ServiceDetails.SetConnectionStateDetail); " +
+			"non-trivial = a stable point with at least one notification was evaluated; distinct = distinct (scenario, latency, states at the stable points) tuples",
+		Real: hubReal, Stub: hubStub,
+		QuickS: 30, ThoroughS: 480, QuickWorkers: 8,
+	},
 	"C05": {
 		Level: "exploration",
 		Rule: "one run = two real hubs (optionally a third bystander) with generated certificates on the simulated network and mDNS medium: registration before/after Start, start skew 0..30 s, network latency 0..900 ms (optionally asymmetric), mDNS propagation 0..6 s, the dial back-off drawn per attempt (minimum / maximum / any), then 0-4 disturbances from {DisconnectSKI by either side, unsafe close, reset of all connections, half-open link, mDNS outage} at drawn times, then 300 quiet simulated seconds x seeded interleaving of all hub, ship, ws, http and harness tasks; oracle: exactly one transport connection open at both ends, registered on both sides, completed on both sides, a fresh payload crosses in each direction; " +
